@@ -4,7 +4,7 @@ import VgiVerif.Spec.C26
 namespace VgiVerif.C26.Driver
 open Lean VgiVerif.J VgiVerif.C26 VgiVerif.Sched
 
-def cmpName : Gen.Sticky.Cmp → String
+def cmpName : Gen.C26.Cmp → String
   | .lt => "Lt" | .le => "LtE" | .gt => "Gt" | .ge => "GtE" | .eq => "Eq" | .ne => "NotEq"
 
 /-- harness events → model labels -/
@@ -73,16 +73,16 @@ def stJson (st : St) (ts : List Tid) : Json :=
 def handle (fn : String) (a : Json) : R Json := do
   match fn with
   | "gen" =>
-    pure (obj [("getExpiredCmp", Json.str (cmpName Gen.Sticky.getExpiredCmp)),
-      ("sweepExpiredCmp", Json.str (cmpName Gen.Sticky.sweepExpiredCmp)),
-      ("reaperTickMillis", ofNat Gen.Sticky.reaperTickMillis),
-      ("shape", ofBool (Gen.Sticky.regLockIsPlainLock && Gen.Sticky.entryLockIsRLock && Gen.Sticky.openOrder
-        && Gen.Sticky.getShape && Gen.Sticky.isLiveShape && Gen.Sticky.closeShape && Gen.Sticky.drainShape
-        && Gen.Sticky.shutdownShape && Gen.Sticky.closeEntryShape && Gen.Sticky.noDirectStateClose
-        && Gen.Sticky.requestRechecksLive && Gen.Sticky.closeSessionKeepsEntryLock
-        && Gen.Sticky.responseReleasesEntryLock && Gen.Sticky.deleteClosesUnderEntryLock
-        && Gen.Sticky.reaperLoopShape)),
-      ("fingerprint", Json.str Gen.Sticky.fingerprint)])
+    pure (obj [("getExpiredCmp", Json.str (cmpName Gen.C26.getExpiredCmp)),
+      ("sweepExpiredCmp", Json.str (cmpName Gen.C26.sweepExpiredCmp)),
+      ("reaperTickMillis", ofNat Gen.C26.reaperTickMillis),
+      ("shape", ofBool (Gen.C26.regLockIsPlainLock && Gen.C26.entryLockIsRLock && Gen.C26.openOrder
+        && Gen.C26.getShape && Gen.C26.isLiveShape && Gen.C26.closeShape && Gen.C26.drainShape
+        && Gen.C26.shutdownShape && Gen.C26.closeEntryShape && Gen.C26.noDirectStateClose
+        && Gen.C26.requestRechecksLive && Gen.C26.closeSessionKeepsEntryLock
+        && Gen.C26.responseReleasesEntryLock && Gen.C26.deleteClosesUnderEntryLock
+        && Gen.C26.reaperLoopShape)),
+      ("fingerprint", Json.str Gen.C26.fingerprint)])
   | "accepts" =>
     let ls ← (← arrF a "events").mapM labelOf
     match C26.ts.run ls with
